@@ -4,10 +4,10 @@ package main
 
 import (
 	"fmt"
-	"os"
 	"go/ast"
 	"go/token"
 	"go/types"
+	"os"
 	"sort"
 	"strings"
 
@@ -21,7 +21,7 @@ type effects struct {
 	allNonDoc bool            // callees with inferred summaries: everything but the document heap may be written
 	allocates bool
 	cells     map[*ssa.Alloc]bool
-	hardAll   bool       // all was set by something other than a contract with an unstated frame
+	hardAll   bool        // all was set by something other than a contract with an unstated frame
 	unknown   []*Contract // the called contracts with unstated frames (their keeps lists survive)
 }
 
